@@ -1,4 +1,5 @@
 import PlaybackProofs.Keys
+import PlaybackProofs.Escape
 /-!
 # C06 — Input lookup keys identify calls by alias and captured argument values only
 
@@ -169,5 +170,36 @@ theorem C06_set_counterexample :
     inputKeyToks "f" (iterView (fun xs => xs) (.tuple (.cons (.set (.cons (.str "x") (.cons (.str "y") .nil))) .nil))) .nil ≠
     inputKeyToks "f" (iterView revVals (.tuple (.cons (.set (.cons (.str "x") (.cons (.str "y") .nil))) .nil))) .nil := by
   decide
+
+/-! ## Below the token level: literals are rendered injectively
+
+`C06_injective` is stated on token streams.  The two kinds of token that carry unbounded content - string literals and
+integer literals - are rendered to text injectively (character level): the body of a string literal (json.dumps'
+`ensure_ascii` escaping as transcribed in `escChar`: two-character escapes, `\uXXXX`, surrogate pairs for astral
+characters) can be decoded character by character, and decimal rendering of integers is injective.  What remains in the
+trusted base for the text level is only that token boundaries are recognised (a lexer for punctuation / keywords / where a
+number ends), which is a property of a fixed, finite token alphabet. -/
+
+/-- Two different strings never have the same literal text. -/
+theorem C06_string_literal_injective (s s' : String) (h : tokText (.str s) = tokText (.str s')) : s = s' := by
+  simp only [tokText] at h
+  have h2 := congrArg String.toList h
+  simp only [String.toList_append, List.append_assoc] at h2
+  have hq : ("\"" : String).toList = ['"'] := by decide
+  rw [hq] at h2
+  simp only [List.cons_append, List.nil_append, List.cons.injEq, true_and] at h2
+  have h3 := List.append_cancel_right h2
+  exact escString_injective s s' (String.toList_inj.mp h3)
+
+/-- … and every character of a string can be read back from its literal: the decoder `dec` inverts `escChar`. -/
+theorem C06_string_char_decodable (c : Char) (rest : List Char) : dec ((escChar c).toList ++ rest) = some (c, rest) :=
+  dec_esc c rest
+
+/-- Two different integers never have the same literal text. -/
+theorem C06_int_literal_injective (a b : Int) (h : tokText (.num a) = tokText (.num b)) : a = b :=
+  PlaybackModel.CodecNum.int_toString_injective a b h
+
+example : tokText (.str (String.ofList ['a', '"', 'b', '\n', Char.ofNat 233, Char.ofNat 128512])) =
+    "\"a\\\"b\\n\\u00e9\\ud83d\\ude00\"" := by decide
 
 end Properties.C06
